@@ -77,7 +77,7 @@ def judge(res, verdicts):
                 kinds = "/" + o["a"]["t"] + "-" + o["b"]["t"]
             sig = "C06|%s%s|%s" % (op, kinds, clause)
             res.violation(sig, "program [%s] (scalars as %s): step %d %s: %s; observed %s" % (
-                key, "int" if t["variant"] == 0 else "float", step, op, clause,
+                key, ("int", "float", "tiny 4th scalar")[t["variant"]], step, op, clause,
                 json.dumps(t["res"][step - 1]) if step >= 1 else "init"),
                 dict(kind="program", h=t["h"], variant=t["variant"]))
     res.distinct_nontrivial = len(nontriv)
@@ -91,7 +91,10 @@ def run(tier):
                 "undocumented kinds; thorough adds sampled depth-4 programs), each replayed with int and with float "
                 "scalars; distinct = distinct operator sequences; non-trivial = at least one operator applied")
     progs = programs(res, tier, wd)
-    items = [dict(h=h, variant=v) for h in progs for v in (0, 1)]
+    def uses4(h):
+        return any(o[x]["t"] == "sc" and o[x]["i"] == 4 for o in h for x in ("a", "b"))
+    # variant 0: int scalars, 1: float scalars, 2: the 4th scalar is 2^-20 instead of 1/2 (re-encoded exactly, see drv_c06)
+    items = [dict(h=h, variant=v) for h in progs for v in (0, 1)] + [dict(h=h, variant=2) for h in progs if uses4(h)]
     traces = pool_map("drv_c06", "run", items)
     res.traces = len(traces)
     res.evaluations = len(traces)
